@@ -41,13 +41,15 @@ def source(c, split=False):
     pos = c["pos"]
     # MC_C12!Names: the member's own name (f) and its neighbour's (k)
     nm = c.get("name", "plain")
-    f_, k_ = {"plain": ("f", "k"), "py_keyword": ("from", "k"), "renamed": ('#[serde(rename = "wire-name")] f', "k"), "kw_all": ("from", "pass"),
-                # the member carries a type override for ONE language (Kotlin): every other language still writes its Rust type
-                "kotlin_override": ('#[typeshare(kotlin(type = "String"))] f', "k")}[nm]
+    fa, f_, k_, kt = {"plain": ("", "f", "k", "u32"), "py_keyword": ("", "from", "k", "u32"), "renamed": ('#[serde(rename = "wire-name")] ', "f", "k", "u32"),
+                      "kw_all": ("", "from", "pass", "u32"),
+                      # the member carries a type override for ONE language (Kotlin): every other language still writes its Rust type. The
+                      # neighbour is a bool, so that the member is the only user of whatever helper its type needs
+                      "kotlin_override": ('#[typeshare(kotlin(type = "String"))] ', "f", "k", "bool")}[nm]
     if pos == "field":
-        host = f"#[typeshare]\npub struct Host{g} {{ pub {f_}: {t}, pub {k_}: u32 }}\n".replace("pub #[serde", "#[serde").replace('")] f:', '")] pub f:')
+        host = f"#[typeshare]\npub struct Host{g} {{ {fa}pub {f_}: {t}, pub {k_}: {kt} }}\n"
     elif pos == "field_default":     # the optional marker comes from serde(default), not from the type
-        host = f"#[typeshare]\npub struct Host{g} {{ #[serde(default)] pub {f_}: {t}, pub {k_}: u32 }}\n".replace("pub #[serde", "#[serde").replace('")] f:', '")] pub f:')
+        host = f"#[typeshare]\npub struct Host{g} {{ #[serde(default)] {fa}pub {f_}: {t}, pub {k_}: {kt} }}\n"
     elif pos == "vfield_default":
         host = f'#[typeshare]\n#[serde(tag = "t", content = "c")]\npub enum Host{g} {{ Sv {{ #[serde(default)] f: {t}, k: u32 }}, U }}\n'
     elif pos == "garg_pos":
@@ -55,7 +57,7 @@ def source(c, split=False):
     elif pos == "payload":
         host = f'#[typeshare]\n#[serde(tag = "t", content = "c")]\npub enum Host{g} {{ Pay({t}), U }}\n'
     elif pos == "vfield":
-        host = f'#[typeshare]\n#[serde(tag = "t", content = "c")]\npub enum Host{g} {{ Sv {{ {f_}: {t}, {k_}: u32 }}, U }}\n'
+        host = f'#[typeshare]\n#[serde(tag = "t", content = "c")]\npub enum Host{g} {{ Sv {{ {fa}{f_}: {t}, {k_}: {kt} }}, U }}\n'
     else:
         host = f"#[typeshare]\npub type Host{g} = {t};\n"
     other = ""
@@ -129,8 +131,12 @@ def run(chk):
     for ci, (c, per) in enumerate(zip(cases, results)):
         for lang in common.LANGS:
             r = per[lang]
+            if r["status"] == "error" and not all(e["msg"].startswith("generate:") for e in r["errors"]):
+                # not a backend's refusal (generics in Go, ...): the program itself was not accepted - nothing can be observed
+                chk.refused(f"{lang}/{c['trigger']}/{c.get('name', 'plain')}", f"{lang}: C12 program rejected: {str(r['errors'])[:200]} (case {c})", {"case": c, "lang": lang})
+                continue
             if r["status"] in ("panic", "abort", "hang", "error"):
-                continue          # refused or crashed: other properties' business
+                continue          # refused by the backend or crashed: other properties' business
             if r["status"] == "unreadable":
                 chk.extra.setdefault("unreadable_outputs", {}).setdefault(lang, 0)
                 chk.extra["unreadable_outputs"][lang] += 1
